@@ -4,7 +4,7 @@ import os
 import random
 
 from harness import impl, refspec
-from harness.common import Driver, MachineryError, Run, guarded, hx, sandbox, write_tree
+from harness.common import Driver, MachineryError, Run, drive, guarded, hx, sandbox, write_tree
 from harness.props import metas
 
 RULE = ("all subsets (sampled) and varied values of the ten documented options (announce, "
@@ -223,7 +223,111 @@ def run(tier, seed, replay=None):
     for s in seeds:
         guarded(run, {"case_seed": s}, run_case, run, drv, s, tier)
     table_and_model(run, drv)
+    if not replay:
+        parser_model(run, drv, tier)
     return run.finish()
+
+
+def live_parser():
+    """The `create` sub-parser as the running code builds it (captured from cli.execute)."""
+    import argparse
+    import contextlib
+    import io
+    from torrentfile import cli
+    captured = []
+    orig = argparse.ArgumentParser.parse_args
+
+    def capture(self, *a, **k):
+        captured.append(self)
+        raise SystemExit(0)
+    argparse.ArgumentParser.parse_args = capture
+    try:
+        with contextlib.redirect_stdout(io.StringIO()), contextlib.redirect_stderr(io.StringIO()):
+            try:
+                cli.execute(["create", "x"])
+            except SystemExit:
+                pass
+    finally:
+        argparse.ArgumentParser.parse_args = orig
+    main = captured[0]
+    sub = [a for a in main._actions if isinstance(a, argparse._SubParsersAction)][0]
+    return sub.choices["create"]
+
+
+def _v(x):
+    e = lambda s: hx(s.encode("utf8"))
+    if x is None:
+        return "N"
+    if x is True:
+        return "T"
+    if x is False:
+        return "F"
+    if isinstance(x, str):
+        return "s:" + e(x)
+    if isinstance(x, list):
+        return "l:" + ",".join(e(i) for i in x)
+    return "?" + repr(x)
+
+
+def table_tokens(sub):
+    import argparse
+    toks = []
+    for a in sub._actions:
+        if isinstance(a, argparse._HelpAction):
+            continue
+        if not a.option_strings:
+            toks.append("p:" + hx(a.dest.encode()) + ("" if a.nargs == "?" and a.default is None else ":odd"))
+            continue
+        n = "0" if a.nargs == 0 else "1" if a.nargs is None else "+" if a.nargs == "+" else "?"
+        toks.append("o:%s:%s:%s:%s:%s" % (
+            hx(a.dest.encode()), n, _v(a.default),
+            ",".join(hx(c.encode()) for c in a.choices) if a.choices else "-",
+            ",".join(hx(f.encode()) for f in a.option_strings)))
+    return toks
+
+
+def parser_model(run, drv, tier):
+    """The option table of the running parser must be the one the theorems are about
+    (`tableok … -> ok same`), and the Lean argparse model must agree with the real parser on
+    raw token lists (before MetaFile's path recovery)."""
+    import contextlib
+    import io
+    sub = live_parser()
+    out = drive(["tableok " + " ".join(table_tokens(sub))])[0]
+    run.model_checked += 1
+    if out.split()[:2] != ["ok", "same"]:
+        run.fail("impl-vs-model", {"table": "create sub-parser"},
+                 {"correspondence": "Impl.createTable / tableOK vs the live argparse table",
+                  "model": out[:200]})
+    rng = run.rng
+    flags = [f for a in sub._actions if a.option_strings and "help" not in a.dest for f in a.option_strings]
+    vals = ["u1", "u2", "p", "1", "2", "3", "x y", "http://a/b", "16384", "q", "é"]
+    cases = []
+    for _ in range(300 if tier == "quick" else 3000):
+        n = rng.randrange(0, 9)
+        cases.append([rng.choice(flags) if rng.random() < 0.45 else rng.choice(vals) for _ in range(n)])
+    answers = drive(["argparse " + " ".join(hx(x.encode("utf8")) for x in t) if t else "argparse"
+                     for t in cases])
+    for toks, ans in zip(cases, answers):
+        run.model_checked += 1
+        try:
+            with contextlib.redirect_stdout(io.StringIO()), contextlib.redirect_stderr(io.StringIO()):
+                ns = vars(sub.parse_args(list(toks)))
+            g = ns.get
+            want = "kw path=%s content=%s announce=%s url_list=%s httpseeds=%s private=%s source=%s " \
+                   "comment=%s piece_length=%s meta_version=%s outfile=%s align=%s" % tuple(
+                       _v(x) for x in (g("path"), g("content"), g("announce"), g("url_list"),
+                                       g("httpseeds"), g("private", False), g("source"),
+                                       g("comment"), g("piece_length"), g("meta_version"),
+                                       g("outfile"), g("align", False)))
+        except SystemExit:
+            want = "err"
+        if ans.strip() == "unsupported":
+            continue
+        if ans.strip() != want:
+            run.fail("impl-vs-model", {"tokens": toks},
+                     {"correspondence": "Impl.argparse vs argparse", "model": ans[:200], "impl": want[:200]})
+        run.case(["argparse", len(toks), want == "err"], True, classes=["argparse-raw"])
 
 
 def table_and_model(run, drv):
